@@ -106,6 +106,13 @@ Section PolicyJson.
   Definition members_fold_only (names : list string) (l : list (str * json)) : bool :=
     existsb (fun kv : str * json => negb (existsb (fun n => str_eqb (k n) (fst kv)) names) && (existsb (fun n => fold_eq (k n) (fst kv)) names || exotic (fst kv))) l.
 
+  (* encoding/json MERGES a repeated member into what an earlier occurrence decoded (for struct-typed targets), and decodes every typed
+     member of a node object before ToNode picks one: objects with repeated keys at struct positions, and node objects with more than
+     one member, are outside the model *)
+  Definition has_dups (l : list (str * json)) : bool :=
+    (fix go (l : list (str * json)) (seen : list str) : bool :=
+       match l with [] => false | (key, _) :: r => existsb (str_eqb key) seen || go r (key :: seen) end) l [].
+
   (* a non-null member *)
   Definition field (key : string) (l : list (str * json)) : option json :=
     match jget (k key) l with Some JNull => None | x => x end.
@@ -156,7 +163,7 @@ Section PolicyJson.
     let dec_expr := dec_expr fuel' in
     let sub (names : list string) (v : json) (body : list (str * json) -> dres expr) : dres expr :=
         match v with
-        | JObj m => if members_exact names m then body m else if members_fold_only names m then DUnk else DErr
+        | JObj m => if has_dups m then DUnk else if members_exact names m then body m else if members_fold_only names m then DUnk else DErr
         | _ => DErr
         end in
     let node (key : string) (m : list (str * json)) : dres expr :=
@@ -167,12 +174,13 @@ Section PolicyJson.
         end in
     match j with
     | JObj l =>
+      if Nat.ltb 1 (List.length l) then DUnk else
       if negb (forallb (fun kv : str * json => known_exact (fst kv)) l) then
         (* some key is not a typed field *)
         if existsb (fun kv : str * json => negb (known_exact (fst kv)) && (known_fold (fst kv) || exotic (fst kv))) l then DUnk
         else
           (* extension call object: every member must be an array of expression objects; exactly one distinct key *)
-          match l with
+          match match l with [(name, JNull)] => [(name, JArr [])] | _ => l end with        (* a null array is an empty argument list *)
           | [(name, JArr args)] =>
               dbind (dall ((fix go (a : list json) : list (dres expr) := match a with [] => [] | x :: r => dec_expr x :: go r end) args)) (fun es =>
               match ext_lookup name with
@@ -272,7 +280,8 @@ Section PolicyJson.
   (* ImplicitlyMarshaledEntityUID: a plain struct {Type, ID} *)
   Definition dec_uid (j : json) : dres uid :=
     match j with
-    | JObj m => if struct_ok ["type"; "id"]%string m then dbind (sfield "type" m) (fun t => dbind (sfield "id" m) (fun i => DOk (t, i))) else DUnk
+    | JNull => DOk ([], [])
+    | JObj m => if has_dups m then DUnk else if struct_ok ["type"; "id"]%string m then dbind (sfield "type" m) (fun t => dbind (sfield "id" m) (fun i => DOk (t, i))) else DUnk
     | _ => DErr
     end.
 
@@ -281,7 +290,7 @@ Section PolicyJson.
   Definition dec_scope (action : bool) (j : json) : dres scope :=
     match j with
     | JObj m =>
-      if negb (struct_ok scope_fields m) then DUnk else
+      if has_dups m || negb (struct_ok scope_fields m) then DUnk else
       dbind (sfield "op" m) (fun op =>
       dbind (sfield "entity_type" m) (fun ty =>
       let entity : dres (option uid) := match field "entity" m with None => DOk None | Some x => dbind (dec_uid x) (fun u => DOk (Some u)) end in
@@ -289,7 +298,7 @@ Section PolicyJson.
       let inn : dres (option uid) :=
           match field "in" m with
           | None => DOk None
-          | Some (JObj mi) => if struct_ok ["entity"]%string mi then
+          | Some (JObj mi) => if has_dups mi then DUnk else if struct_ok ["entity"]%string mi then
                                 match field "entity" mi with None => DOk (Some ([], [])) | Some x => dbind (dec_uid x) (fun u => DOk (Some u)) end
                               else DUnk
           | Some _ => DErr
@@ -310,10 +319,23 @@ Section PolicyJson.
 
   Definition policy_fields : list string := ["annotations"; "effect"; "principal"; "action"; "resource"; "conditions"]%string.
 
+  (* any object with a repeated key, anywhere in the document *)
+  Fixpoint any_dups (fuel : nat) (j : json) : bool :=
+    match fuel with
+    | O => true
+    | S f =>
+      match j with
+      | JArr l => existsb (any_dups f) l
+      | JObj l => has_dups l || existsb (fun kv : str * json => any_dups f (snd kv)) l
+      | _ => false
+      end
+    end.
+
   Definition dec_policy (j : json) : dres (list (str * str) * policy) :=
+    if any_dups (S (jdepth j)) j then DUnk else
     match j with
     | JObj m =>
-      if negb (struct_ok policy_fields m) then DUnk else
+      if has_dups m || negb (struct_ok policy_fields m) then DUnk else
       dbind (sfield "effect" m) (fun eff =>
       let annots : dres (list (str * str)) :=
           match field "annotations" m with
@@ -329,7 +351,7 @@ Section PolicyJson.
           | None => DOk []
           | Some (JArr cs) =>
               dall (map (fun c => match c with
-                                  | JObj cm => if negb (struct_ok ["kind"; "body"]%string cm) then DUnk else
+                                  | JObj cm => if has_dups cm || negb (struct_ok ["kind"; "body"]%string cm) then DUnk else
                                                dbind (sfield "kind" cm) (fun kind =>
                                                dbind (match jget (k "body") cm with Some (JObj _ as b) => decode_expr b | _ => DErr end) (fun body =>
                                                if is_key kind "when" then DOk (true, body) else if is_key kind "unless" then DOk (false, body) else DErr))
